@@ -64,11 +64,12 @@ impl State {
     }
 
     fn get_aggregation_timestamp(&self) -> Option<u64> {
+        // Only the aggressive mode sends timestamps: see `AggregationMode`.
         match self.config.agg_mode {
-            AggregationMode::Conservative => {
+            AggregationMode::Conservative => None,
+            AggregationMode::Aggressive => {
                 SystemTime::now().duration_since(SystemTime::UNIX_EPOCH).ok().map(|d| d.as_secs())
             }
-            AggregationMode::Aggressive => None,
         }
     }
 
